@@ -1445,11 +1445,18 @@ def longitude_continuity(coordinates, region):
     # Move west=0 and east=360 if region longitudes goes all around the globe
     if all_globe:
         w, e = 0, 360
+    # An east boundary on the 360 meridian is wrapped to 0 by the modulo. Move
+    # it back so that it isn't smaller than the west boundary.
+    if e == 0 and w > 0:
+        e = 360
     # Check if the [-180, 180) interval is better suited
     if w > e:
         interval_360 = False
         e = ((e + 180) % 360) - 180
         w = ((w + 180) % 360) - 180
+        # Same for an east boundary on the 180 meridian, wrapped to -180
+        if e == -180:
+            e = 180
     region = np.array(region)
     region[:2] = w, e
     # Modify extra coordinates if passed
@@ -1459,8 +1466,14 @@ def longitude_continuity(coordinates, region):
         longitude = coordinates[0]
         if interval_360:
             longitude = longitude % 360
+            seam = 360
         else:
             longitude = ((longitude + 180) % 360) - 180
+            seam = 180
+        # Points on the meridian where the interval wraps belong to the east
+        # boundary if the region ends there (and doesn't start there)
+        if e == seam and w > seam - 360:
+            longitude = np.where(longitude == seam - 360, seam, longitude)
         coordinates = np.array(coordinates)
         coordinates[0] = longitude
         return coordinates, region
